@@ -95,7 +95,9 @@ func Lexemes(kind string) []Lexeme {
 		for _, s := range []string{"2020-01-02T03:04:05Z", "2020-01-02T03:04:05+02:00", "2020-01-02T03:04:05.123456789Z", "1999-12-31T23:59:59-11:30", "2024-02-29T00:00:00Z", "0001-01-01T00:00:00Z", "9999-12-31T23:59:59Z"} {
 			out = append(out, Lexeme{s, "accept", mustTime(s)})
 		}
-		for _, s := range []string{"", "abc", "2020-01-02", "03:04:05Z", "2020-01-02T03:04:05", "2020-13-01T00:00:00Z", "2020-02-30T00:00:00Z", "2020-01-02T24:00:00Z", "2020-01-02T03:04:05Z ", " 2020-01-02T03:04:05Z", "2020-01-02 03:04:05Z", "1577934245", "2023-02-29T00:00:00Z", "2020-01-02T03:60:05Z"} {
+		for _, s := range []string{"", "abc", "2020-01-02", "03:04:05Z", "2020-01-02T03:04:05", "2020-13-01T00:00:00Z", "2020-02-30T00:00:00Z", "2020-01-02T24:00:00Z", "2020-01-02T03:04:05Z ", " 2020-01-02T03:04:05Z", "2020-01-02 03:04:05Z", "1577934245", "2023-02-29T00:00:00Z", "2020-01-02T03:60:05Z",
+			// what an unencoded '+' of the offset turns into in a query string, and friends
+			"2020-01-02T03:04:05 02:00", "2020-01-02T03:04:05 0200", "2020-01-02T03:04:05+0200", "Thu, 02 Jan 2020 03:04:05 GMT", "2020-01-02T03:04:05Z+02:00"} {
 			out = append(out, Lexeme{s, "reject", nil})
 		}
 		for _, s := range []string{"2020-01-02t03:04:05z", "2020-01-02T03:04:05z", "2020-01-02T03:04:60Z", "2020-01-02T03:04:05,5Z", "2020-01-02T3:04:05Z", "2020-01-02T03:04:05+24:00"} {
